@@ -11,7 +11,7 @@ RULE = ("cases = every 1-D array of length 1..Lmax over a 2-4 letter alphabet pe
 ASSUMPTIONS = ["oracle: the dense array itself (element-wise ==, NaN matches NaN, dtype, length/size/shape)",
                "canonical form is read through the public starts / ends / values / len only",
                "'no equal adjacent values' is demanded exactly for the producers the statement lists: encoding, stepped slicing, ufuncs on two run-length operands"]
-REQUIRED_FEATURES = ["single_run", "all_different", "nan_values", "signed_zero", "producer_slice", "producer_step", "producer_binary", "producer_concat",
+REQUIRED_FEATURES = ["input_not_contiguous", "single_run", "all_different", "nan_values", "signed_zero", "producer_slice", "producer_step", "producer_binary", "producer_concat",
                      "producer_mask", "result_needed_rejoin", "producer_step_of_unjoined_operand"]
 BOUNDS = {"quick": "all arrays L<=6 (bool, int8, int64, uint8, uint64, float16/32/64; 3-letter alphabets, 4 for float32/64 at L<=5); producers over all "
                    "int64 arrays L<=4: every in-range slice with steps +-1..3, add/maximum/equal of every pair (L<=3), scalar ops, concatenate pairs, run-length masks",
@@ -76,6 +76,20 @@ def _check_enc(case, acc):
         acc.outcome(o)
         if o != exp:
             acc.fail(f"{name}-differs", exp, o)
+    # the same values handed over in other memory layouts (views of a larger buffer): reversed, every other cell, a matrix column
+    if L:
+        acc.feature("input_not_contiguous")
+        big = np.zeros((L, 2), dtype=a.dtype)
+        big[:, 0] = a
+        for lname, view in (("reversed", lambda: a[::-1].copy()[::-1]), ("strided", lambda: np.repeat(a, 2)[::2]), ("column", lambda: big.copy()[:, 0])):
+            v = view()
+            o = attempt(lambda: dense_obs(decode(RunLengthArray.from_array(v))))
+            acc.trans()
+            if o != exp:
+                acc.fail(f"from_array({lname} view)-differs", exp, o)
+            cv = attempt(lambda: canon_violation(RunLengthArray.from_array(view()), joined=True))
+            if cv is not None:
+                acc.fail("noncanonical-encoding", (lname, None), cv)
     meta = attempt(lambda: (int(len(r)), int(r.size), tuple(int(x) for x in r.shape), str(r.dtype)))
     acc.trans()
     if meta != (L, L, (L,), str(a.dtype)):
